@@ -245,6 +245,42 @@ theorem cartanMatrix_spec [DecidableEq R] (B : Matrix (Fin n) (Fin n) R) (M : Ma
   rw [if_neg (by omega), if_neg (by omega)]
   simp
 
+/-- the parameters of `cartan_matrix` take effect at EVERY infinite label (`M i j ≤ 0`, including the
+label written `0`): a specified (non-zero) parameter is the entry -/
+theorem cartanMatrix_param [DecidableEq R] (B : Matrix (Fin n) (Fin n) R) (M : Matrix (Fin n) (Fin n) ℤ)
+    (P : Matrix (Fin n) (Fin n) R) (i j : Fin n) (hij : M i j ≤ 0) (hP : P i j ≠ 0) :
+    cartanMatrix B M P i j = P i j := by
+  unfold cartanMatrix
+  rw [if_pos ⟨hij, hP⟩]
+
+/-- every infinite label (`≤ 0`, however it is written) gets the form entry `-cos(π/(1/2)) = -cos 2π` -/
+theorem cosineForm_infinite (cs : ℚ → R) (M : Matrix (Fin n) (Fin n) ℤ) (i j : Fin n) (h : M i j ≤ 0) :
+    cosineForm cs M i j = -cs (1 / 2) := by
+  simp [cosineForm, h]
+
+/-- the guard of `cartan_representation(diagonalize=True)` never refuses a genuine diagonalising
+pair: `Winv * W = 1` implies that `W` has no zero column -/
+theorem diagGuard_of_inverse [Nontrivial R] [DecidableEq R] (W Winv : Matrix (Fin n) (Fin n) R)
+    (h : Winv * W = 1) : diagGuard W = true := by
+  unfold diagGuard
+  rw [decide_eq_true_eq]
+  intro j
+  by_contra hcon
+  push Not at hcon
+  have := congrFun (congrFun h j) j
+  rw [Matrix.mul_apply, Matrix.one_apply_eq] at this
+  simp [hcon] at this
+
+/-- … and it refuses what `diagonalize_form` returns for a degenerate form: `W = U · diag(d)` with a
+null direction `d j = 0` has a zero column -/
+theorem diagGuard_refuses [DecidableEq R] (U : Matrix (Fin n) (Fin n) R) (d : Fin n → R) (j : Fin n)
+    (hd : d j = 0) : diagGuard (U * Matrix.diagonal d) = false := by
+  unfold diagGuard
+  rw [decide_eq_false_iff_not]
+  intro h
+  obtain ⟨i, hi⟩ := h j
+  exact hi (by rw [Matrix.mul_diagonal, hd, mul_zero])
+
 end ring
 
 /-! ## every finite label, over ℝ -/
@@ -385,6 +421,32 @@ theorem canonical_representation_real {n : ℕ} (M : Matrix (Fin n) (Fin n) ℤ)
         have : Real.pi / ((2 : ℕ) : ℝ) = Real.pi / 2 := by norm_num
         rw [this, Real.cos_pi_div_two]
       rw [this]; simp
+
+
+/-- an infinite label (`M_ij ≤ 0`, written `0` or negative) over ℝ: the cosine form entry is `-1` and
+`sᵢsⱼ` has infinite order in the geometric representation -/
+theorem infinite_label_real {n : ℕ} (M : Matrix (Fin n) (Fin n) ℤ) (hM : Mᵀ = M) (hd : ∀ i, M i i = 1)
+    (i j : Fin n) (hij : i ≠ j) (h : M i j ≤ 0) :
+    let B := cosineForm (fun x : ℚ => Real.cos (Real.pi / (x : ℝ))) M
+    B i j = -1 ∧ ∀ k : ℕ, 0 < k → (geomRep B i * geomRep B j) ^ k ≠ 1 := by
+  intro B
+  have h1 : (fun x : ℚ => Real.cos (Real.pi / (x : ℝ))) 1 = -1 := by simp
+  obtain ⟨hs, hdiag⟩ : Bᵀ = B ∧ ∀ i, B i i = 1 :=
+    cosineForm_symm_diag (R := ℝ) (fun x : ℚ => Real.cos (Real.pi / (x : ℝ))) M hM hd h1
+  have hval : ∀ a b, M a b ≤ 0 → B a b = -1 := by
+    intro a b hab
+    show cosineForm _ M a b = -1
+    rw [cosineForm_infinite _ M a b hab]
+    have : Real.pi / (((1 / 2 : ℚ)) : ℝ) = 2 * Real.pi := by push_cast; ring
+    simp only [this, Real.cos_two_pi]
+  have hji : M j i ≤ 0 := by
+    have : M j i = M i j := congrFun (congrFun hM i) j
+    rw [this]; exact h
+  refine ⟨hval i j h, fun k hk => ?_⟩
+  unfold geomRep
+  apply order_infinite _ i j hij (by simp [hdiag i]) (by simp [hdiag j]) _ k hk
+  simp only [Matrix.smul_apply, smul_eq_mul]
+  rw [hval i j h, hval j i hji]; ring
 
 /-- **triangle angles.**  For the cosine form `B = form3 a b c` of a triangle group, let `ω_k` be the
 vertex fixed by `sᵢ` and `sⱼ` (hence by the rotation `sᵢsⱼ`), and `u, w` the directions at `ω_k`
